@@ -57,6 +57,13 @@ def _init_half():
     HALF_KINDS = [k for k in CLEAN_KINDS if k not in ('autolink', 'email', 'link-url')]
 
 
+EDGE_CHARS = ['\u00e0', '\u2020', '\u00a0', '\u0160', '\u2026', '\u00ad', '\u00c0', '\u4e2d', '\U0001F600', '\u0420', '\u00e9']
+
+
+def edge_payload(rng, kind):
+    return rng.choice(EDGE_CHARS) * rng.randint(1, 2)
+
+
 def clean_payload(rng, kind):
     out = ''.join(rng.choice(CLEAN) for _ in range(rng.randint(1, 4)))
     if kind in ('link-url', 'autolink', 'email', 'meta-key', 'meta-css', 'manual-label', 'superscript', 'subscript'):
@@ -136,9 +143,13 @@ def work(job):
             strict = 0.4 <= mode < 0.8          # clean / half-markup documents hold no complete raw construct: nothing is passed through by design
             if mode < 0.4:
                 text, sl = slots.build(rng, payload)
-            elif mode < 0.6:
+            elif mode < 0.5:
                 text, sl = slots.build(rng, clean_payload, kinds=CLEAN_KINDS, nslots=rng.randint(1, 4))
                 r.stats['clean_documents'] += 1
+            elif mode < 0.6:
+                # byte-special characters (last byte 0xA0 / 0x85 / 0xAD ...) at the very start or end of a text position: where trimming cuts by bytes
+                text, sl = slots.build(rng, edge_payload, kinds=slots.LEADING_KINDS, nslots=rng.randint(1, 4))
+                r.stats['edge_position_documents'] += 1
             elif mode < 0.8:
                 half = rng.choice(HALF_MARKUP)
                 text, sl = slots.build(rng, half_payload(half), kinds=HALF_KINDS, nslots=1)
@@ -188,6 +199,62 @@ def work(job):
     return r
 
 
+RAW_TAGS = ['html', 'latex', 'odt', 'epub', '*', 'beamer', 'memoir', 'fodt', 'opml']
+RAW_ACCEPT = {'fodt': ('odt', 'fodt', '*'), 'odt': ('odt', 'fodt', '*'), 'epub': ('epub', 'html', '*')}       # {=format}: raw source for that format only ({=*}: all)
+RAW_PAYLOADS = ['<br>', 'a & b', '<unclosed', '</text:p>', '<b>bold', '&nbsp;', '"q" <', ']]>']
+
+
+def work_rawfilter(job):
+    """raw source tagged for another format must not reach this format's XML (and whatever is left parses)"""
+    seed, lo, hi = job
+    r = core.JobResult()
+    with core.Session(r) as s:
+        for i in range(lo, hi):
+            rng = core.job_rng(seed, ID, 'raw', i)
+            tag = rng.choice(RAW_TAGS)
+            pay = rng.choice(RAW_PAYLOADS)
+            if rng.random() < 0.5:
+                src = 'before zqa `%s`{=%s} zqb after\n' % (pay, tag)
+            else:
+                src = 'before zqa\n\n```{=%s}\n%s\n```\n\nzqb after\n' % (tag, pay)
+            srcb = src.encode()
+            refb = re.sub(r'`[^`]*`\{=[^}]*\}|```\{=[^}]*\}\n.*?\n```\n\n', '', src, flags=re.S).encode()      # the same document without the raw construct
+
+            def members(fname, source):
+                fmt = D.FMT[fname]
+                rq = D.req_to_json('asan', 'CONVERT', fmt, D.EXT_CLI, 0, 1 | (1 << 4), [source])
+                rep = s.call('asan', 'CONVERT', fmt, D.EXT_CLI, 0, 1 | (1 << 4), [source], crash_is_violation=False)
+                r.evaluations += 1
+                if rep is None or rep.status:
+                    return None, rq
+                if fname == 'fodt':
+                    return [('fodt', rep.out)], rq
+                try:
+                    z = zipfile.ZipFile(io.BytesIO(rep.out))
+                    return [('%s:%s' % (fname, n.split('/')[-1]), z.read(n)) for n in z.namelist() if n.endswith(('content.xml', 'main.xhtml'))], rq
+                except Exception:
+                    return None, rq
+            for fname in ('fodt', 'odt', 'epub'):
+                if tag in RAW_ACCEPT[fname]:
+                    continue
+                got, rq = members(fname, srcb)
+                ref, _ = members(fname, refb)
+                if not got or not ref:
+                    continue
+                for (name, data), (_, rdata) in zip(got, ref):
+                    r.stats['raw_filter_members_checked'] += 1
+                    a, b, ra, rb = data.find(b'zqa'), data.find(b'zqb'), rdata.find(b'zqa'), rdata.find(b'zqb')
+                    if min(a, b, ra, rb) < 0:
+                        continue
+                    seg, rseg = re.sub(rb'\s+', b' ', data[a:b]), re.sub(rb'\s+', b' ', rdata[ra:rb])
+                    if seg != rseg:
+                        r.violate('raw-filter-leak:%s:%s' % (name, tag), 'raw source tagged {=%s} changed %s: %s (without the construct: %s)' % (tag, name, core.show(seg, 160), core.show(rseg, 120)),
+                                  dict(requests=[rq]), core.show(srcb, 200))
+            r.distinct.add(core.h64('raw', src))
+            r.sets['raw_filter_tags'].add(tag)
+    return r
+
+
 def main():
     chk = core.Check(ID)
     n = chk.scale(12000, 300000)
@@ -197,4 +264,6 @@ def main():
     chk.assumptions = ['sources are valid UTF-8 without C0/C1 controls other than tab and line breaks, as the property requires', 'expat does not load DTDs: only the five XML entities are defined']
     chunk = max(20, n // 64)
     chk.run_jobs(work, [(chk.seed, lo, min(n, lo + chunk)) for lo in range(0, n, chunk)])
+    nr = chk.scale(640, 8000)
+    chk.run_jobs(work_rawfilter, [(chk.seed, lo, min(nr, lo + 40)) for lo in range(0, nr, 40)])
     return chk.finish()
